@@ -205,6 +205,36 @@ def s_vec_index_range(ex, st, func, args, ty):
 def s_to_vec(ex, st, func, args, ty): return [(st, seqobj(st, 'Vec', model(st, args[0])))]
 
 
+def s_map_get(ex, st, func, args, ty):
+    mp = obj(st, args[0]); name = origin(st, args[1])
+    for kk, vv in model(st, mp):
+        if origin(st, kk) == name: return [(st, some(st, slot(st, vv)))]
+    return [(st, none(st))]
+
+
+def s_vec_get(ex, st, func, args, ty):
+    v = obj(st, args[0]); m = model(st, v); i = args[1].t; out = []
+    for k in range(len(m)):
+        if ex.feasible(st, i == k):
+            s2 = st.clone(); s2.pc.append(i == k); out.append((s2, some(s2, slot(s2, model(s2, obj(s2, args[0]))[k]))))
+    c = z3.UGE(i, len(m))
+    if ex.feasible(st, c):
+        s2 = st.clone(); s2.pc.append(c); out.append((s2, none(s2)))
+    return out
+
+
+def s_map_keys(ex, st, func, args, ty): return [(st, seqobj(st, 'Keys', [slot(st, k) if 'into' not in func else k for k, _ in model(st, args[0])]))]
+def s_map_values(ex, st, func, args, ty): return [(st, seqobj(st, 'Values', [slot(st, v) if 'into' not in func else v for _, v in model(st, args[0])]))]
+def s_collect_vec(ex, st, func, args, ty): return [(st, seqobj(st, 'Vec', [obj(st, x) for x in model(st, args[0])]))]
+def s_map_into_json(ex, st, func, args, ty):
+    """iter.map(Into::into) / map(JsonValue::from) over strings or values: strings become JsonValue::String"""
+    it = obj(st, args[0]); out = []
+    for x in model(st, it):
+        x = obj(st, x)
+        out.append(jv(st, ex, 'String', x) if st.meta[x.oid][1] == 'String' else x)
+    return [(st, seqobj(st, 'Mapped', out))]
+
+
 def s_range_next(ex, st, func, args, ty):
     r = obj(st, args[0]); a = st.heap[r.oid][('f', None, 0)]; b = st.heap[r.oid][('f', None, 1)]
     av = cval(a.t)
@@ -245,7 +275,9 @@ def make_summaries(argtable):
             (r'impl str>::chars$', s_chars), (r'as Iterator>::count$', s_iter_count), (r'as Iterator>::skip$', s_iter_skip), (r'as Iterator>::take$', s_iter_take),
             (r'as Iterator>::collect::<std::string::String>$|as Iterator>::collect::<String>$', s_collect_string),
             (r'Vec::<.*>::push$', s_seq_push), (r'Vec::<.*>::insert$', s_vec_insert), (r'IndexMap::<.*>::insert$', s_map_insert), (r'IndexMap::<.*>::contains_key::', s_contains_key),
-            (r'impl \[.*\]>::first$', s_first), (r'impl \[.*\]>::last$', s_last), (r'Option::<.*>::cloned$|as Iterator>::cloned$', s_cloned),
+            (r'IndexMap::<.*>::get::<', s_map_get), (r'impl \[.*\]>::get::<usize>$|Vec::<.*>::get::<usize>$', s_vec_get), (r'IndexMap::<.*>::keys$|IndexMap::<.*>::into_keys$', s_map_keys), (r'IndexMap::<.*>::values$|IndexMap::<.*>::into_values$', s_map_values),
+            (r'as Iterator>::collect::<Vec<JsonValue>>$', s_collect_vec), (r'as Iterator>::map::<JsonValue', s_map_into_json),
+            (r'impl \[.*\]>::first$', s_first), (r'impl \[.*\]>::last$', s_last), (r'Option::<.*>::cloned$|as Iterator>::cloned(::<.*>)?$', s_cloned),
             (r'<Vec<.*> as Clone>::clone$|<IndexMap<.*> as Clone>::clone$', lambda ex, st, f, a, t: [(st, seqobj(st, st.meta[obj(st, a[0]).oid][1], model(st, a[0])))]),
             (r'<JsonValue as Clone>::clone$|<std::string::String as Clone>::clone$', s_clone_shared), (r'as Deref>::deref$', s_identity),
             (r'<Vec<.*> as Index<.*Range.*>>::index$|<\[.*\] as Index<.*Range.*>>::index$', s_vec_index_range), (r'impl \[.*\]>::to_vec$|slice::<impl \[.*\]>::to_vec', s_to_vec),
@@ -315,6 +347,12 @@ KERNELS = {
     'push_front': (r'push_front::get::\{closure#0\}::<impl at [^>]*>::get$', 'arr+X', lambda k, e: [(z3.BoolVal(True), ['X'] + e)]),
     'first': (r'(^|::)first::get::\{closure#0\}::<impl at [^>]*>::get$', 'arr->elem', lambda k, e: [(z3.BoolVal(True), e[0] if e else None)]),
     'last': (r'(^|::)last::get::\{closure#0\}::<impl at [^>]*>::get$', 'arr->elem', lambda k, e: [(z3.BoolVal(True), e[-1] if e else None)]),
+    'size': (r'(^|::)size::get::\{closure#0\}::<impl at [^>]*>::get$', 'sizeof', None),
+    'get': (r'collection::get::get::\{closure#0\}::<impl at [^>]*>::get$|(^|::)get::get::\{closure#0\}::<impl at [^>]*>::get$', 'index', None),
+    'range': (r'list_producers::range::get::\{closure#0\}::<impl at [^>]*>::get$|(^|::)range::get::\{closure#0\}::<impl at [^>]*>::get$', 'range', None),
+    'put': (r'(^|::)put::get::\{closure#0\}::<impl at [^>]*>::get$', 'put', None),
+    'keys': (r'(^|::)keys::get::\{closure#0\}::<impl at [^>]*>::get$', 'keys', None),
+    'values': (r'(^|::)values::get::\{closure#0\}::<impl at [^>]*>::get$', 'values', None),
     'head': (r'head::get::\{closure#0\}::<impl at [^>]*>::get$', 'str+N', ref_take),
     'tail': (r'tail::get::\{closure#0\}::<impl at [^>]*>::get$', 'str+N', lambda k, e: [(N == i, e[i:]) for i in range(k)] + [(z3.UGE(N, k), e)] if False else [(N == i, e[i:]) for i in range(k + 1)] + [(z3.UGT(N, k), e)]),
 }
@@ -342,6 +380,14 @@ def kernels(ctx, names=None, strings=True):
             shapes = [('array', k) for k in range(K + 1)] + [('number', 0), ('string', 1)]
         elif kind.startswith('str'):
             shapes = [('string', k) for k in range(0, 4)] + [('number', 0), ('array', 1)]
+        elif kind == 'sizeof':
+            shapes = [('array', k) for k in range(K + 1)] + [('object', k) for k in range(K + 1)] + [('string', k) for k in range(0, 4)] + [('number', 0)]
+        elif kind == 'index':
+            shapes = [('array', k) for k in range(K + 1)] + [('object', k) for k in range(K + 1)] + [('number', 0), ('string', 1)]
+        elif kind == 'range':
+            shapes = [('number', 0), ('array', 1), ('string', 1)]
+        elif kind in ('put', 'keys', 'values'):
+            shapes = [('object', k) for k in range(K + 1)] + [('array', 1), ('number', 0)]
         for shape, k in shapes:
             for absent_count in ((False, True) if '+N' in kind and k == 1 and shape != 'number' else (False,)):
                 sbytes = [z3.BitVec(f's{i}', 8) for i in range(k)] if shape == 'string' else []
@@ -351,89 +397,155 @@ def kernels(ctx, names=None, strings=True):
                     if shape == 'string': return mk_string(st, ex, sbytes)
                     return mk_num(st, ex, z3.BitVec('A0', 64))
                 table = {0: a0}
+                variants_extra = [None]
                 if '+N' in kind and not absent_count: table[1] = lambda st, ex: mk_num(st, ex, N)
+                if kind == 'index' and shape == 'array': table[1] = lambda st, ex: mk_num(st, ex, N)
+                if kind == 'range' and shape == 'number': table[0] = lambda st, ex: mk_num(st, ex, N)
                 if '+M' in kind: table[2] = lambda st, ex: mk_num(st, ex, M_)
                 if '+X' in kind: table[1] = lambda st, ex: named(st, 'X', 'JsonValue')
-                ex = ctx.exec(summaries=make_summaries(table), inline=[(r'<NumberValue as TryInto<usize>>::try_into$', r'^$')] if False else [], max_visits=4 * K + 12)
-                F = ex.find(body_rx)
-                st = State(); so = named(st, 'self', 'Impl'); selfref = slot(st, so, 'self*'); c = slot(st, named(st, 'ctx', 'Context'), 'ctx*')
-                nargs = 1 + ('+N' in kind) + ('+M' in kind) + ('+X' in kind)
-                st.heap[so.oid][('f', None, 0)] = seqobj(st, 'Vec', [named(st, f'G{i}', 'Rc<dyn Get>') for i in range(nargs)], origin='self.0')
-                if shape == 'string' and sbytes: st.pc.append(utf8_valid(sbytes))
-                st.pc.append(z3.ULE(N, LIM)); st.pc.append(z3.ULE(M_, LIM))
-                PANICS.clear()
-                try:
-                    ex.new_frame(st, F, [selfref, c]); done = ex.run(st) + list(PANICS)
-                except Broken as e:
-                    raise Broken(f'kernel {name} on {shape} of {k}: {e}')
-                for d in done:
-                    run.paths += 1
-                    if d.status == 'infeasible': continue
-                    fam.obligations += 1; fam.paths += 1; fam.witnesses += 1
-                    hav = (d.havoc or [None])[0]
-                    terms = {'N': N, 'M': M_}
-                    for i, b in enumerate(sbytes): terms[f's{i}'] = b
-                    def cand(role, text, m):
-                        mv = model_values(m, terms) if m is not None else {}
-                        mv.update(fn=name, shape=shape, k=k, absent_count=absent_count)
-                        cd = Candidate(fam.name, role, f'({name} <{shape} of {k}> ...) {text}' + (f' at N={mv.get("N")}' + (f', M={mv.get("M")}' if '+M' in kind else '') + (f', string bytes {[mv.get(f"s{i}") for i in range(k)]}' if shape == 'string' else '') if m is not None else ''), mv, unmodelled=hav)
-                        fam.candidates.append(cd); allc.append(cd)
-                    if d.status == 'panic' or d.status not in ('returned',):
-                        ok_, m = ex.valid(d, z3.BoolVal(False))
-                        cand('panic:' + shape if d.status == 'panic' else f'path-{d.status}', f'{d.status}: {d.notes[-1] if d.notes else ""}', m); continue
-                    r = obj(d, d.ret); rd = cval(ex.discr(d, r).t)
-                    got = show(d, ex, d.heap[r.oid][('f', 'Some', 0)]) if rd == 1 else None
-                    # ---- reference
-                    wrong_type = (kind.startswith('coll') and shape == 'number') or (kind.startswith('arr') and shape != 'array') or (kind.startswith('str') and shape != 'string')
-                    if wrong_type or absent_count:
-                        if got is None: fam.discharged += 1
-                        else: cand('ill-typed-not-nothing', f'gives {got[0]} instead of nothing for an ill-typed / absent argument', ex.valid(d, z3.BoolVal(False))[1])
-                        continue
-                    if shape == 'string':
-                        # elements are code points: expected byte length is the offset of the n-th char start
-                        bs = sbytes; starts = char_starts(bs)
-                        nchars = sum([z3.If(s_, z3.BitVecVal(1, 64), z3.BitVecVal(0, 64)) for s_ in starts]) if bs else z3.BitVecVal(0, 64)
-                        def offset_of(nth):      # byte offset where the nth (0-based) char starts; len if beyond
-                            off = z3.BitVecVal(len(bs), 64); cnt = z3.BitVecVal(0, 64)
-                            res = z3.BitVecVal(len(bs), 64)
-                            seen = z3.BitVecVal(0, 64); found = z3.BoolVal(False)
-                            for i, s_ in enumerate(starts):
-                                hit = z3.And(s_, seen == nth, z3.Not(found))
-                                res = z3.If(hit, z3.BitVecVal(i, 64), res); found = z3.Or(found, hit)
-                                seen = seen + z3.If(s_, z3.BitVecVal(1, 64), z3.BitVecVal(0, 64))
-                            return res
-                        if name in ('take', 'head'): lo, hi = z3.BitVecVal(0, 64), offset_of(N)
-                        elif name == 'tail': lo, hi = z3.If(z3.UGT(N, nchars), z3.BitVecVal(0, 64), offset_of(N)), z3.BitVecVal(len(bs), 64)
-                        elif name == 'take_last': lo, hi = z3.If(z3.UGE(N, nchars), z3.BitVecVal(0, 64), offset_of(nchars - N)), z3.BitVecVal(len(bs), 64)
-                        elif name == 'sub': lo, hi = offset_of(N), z3.If(z3.UGE(M_, nchars - z3.If(z3.UGT(N, nchars), nchars, N)), z3.BitVecVal(len(bs), 64), offset_of(N + M_))
-                        if got is None or got[0] != 'string':
-                            cand('string-not-string', f'returns {got} for a string', ex.valid(d, z3.BoolVal(False))[1]); continue
-                        gb = got[1]
-                        # result must be the byte slice [lo, hi): same length and bytes
-                        conj = [hi - lo == len(gb)]
-                        for j, g in enumerate(gb):
-                            alts = [z3.And(lo == i, g == bs[i + j]) for i in range(len(bs)) if i + j < len(bs)]
-                            conj.append(z3.Or(*alts) if alts else z3.BoolVal(False))
-                        ok_, m = ex.valid(d, z3.And(*conj))
-                        if ok_: fam.discharged += 1
-                        else: cand('string-wrong-slice', f'returns {len(gb)} bytes; expected the code points [{m.eval(lo, True)}..{m.eval(hi, True)}) (byte offsets)', m)
-                        continue
-                    elems = [f'E{i}' for i in range(k)] if shape == 'array' else [(f'K{i}', f'V{i}') for i in range(k)]
-                    cases = ref(k, elems)
-                    conj = []
-                    for cnd, exp in cases:
-                        if kind.endswith('->elem'):
-                            good = (got is None and exp is None) or (got is not None and exp is not None and got == ('opaque', exp))
-                        else:
-                            good = got is not None and got[0] == shape and got[1] == exp
-                        conj.append(z3.Implies(cnd, z3.BoolVal(bool(good))))
-                    ok_, m = ex.valid(d, z3.And(*conj))
-                    if ok_:
-                        fam.discharged += 1
-                        if k >= 2: fam.add_sample({'call': f'({name} <{shape} of {k}> N)', 'path_result': str(got)[:120], 'verdict': 'equals the reference for every N on this path'})
-                    else:
-                        cand('wrong-result:' + shape, f'returns {got}', m)
-                run.absorb(ex)
+                if kind == 'index' and shape == 'object':
+                    variants_extra = [f'K{i}' for i in range(k)] + ['KX']
+                if kind == 'put' and shape == 'object':
+                    variants_extra = [f'K{i}' for i in range(k)] + ['KX']
+                    table[2] = lambda st, ex: named(st, 'NEWV', 'JsonValue')
+                for keyname in variants_extra:
+                  if keyname is not None:
+                      table[1] = lambda st, ex, keyname=keyname: jv(st, ex, 'String', named(st, keyname, 'String'))
+                  ex = ctx.exec(summaries=make_summaries(table), inline=[(r'<NumberValue as TryInto<usize>>::try_into$', r'^$')] if False else [], max_visits=4 * K + 12)
+                  F = ex.find(body_rx)
+                  st = State(); so = named(st, 'self', 'Impl'); selfref = slot(st, so, 'self*'); c = slot(st, named(st, 'ctx', 'Context'), 'ctx*')
+                  nargs = 1 + ('+N' in kind) + ('+M' in kind) + ('+X' in kind) + (kind == 'index') + 2 * (kind == 'put')
+                  st.heap[so.oid][('f', None, 0)] = seqobj(st, 'Vec', [named(st, f'G{i}', 'Rc<dyn Get>') for i in range(nargs)], origin='self.0')
+                  if shape == 'string' and sbytes: st.pc.append(utf8_valid(sbytes))
+                  st.pc.append(z3.ULE(N, LIM if kind != 'range' else 4)); st.pc.append(z3.ULE(M_, LIM))
+                  PANICS.clear()
+                  try:
+                      ex.new_frame(st, F, [selfref, c]); done = ex.run(st) + list(PANICS)
+                  except Broken as e:
+                      raise Broken(f'kernel {name} on {shape} of {k}: {e}')
+                  for d in done:
+                      run.paths += 1
+                      if d.status == 'infeasible': continue
+                      fam.obligations += 1; fam.paths += 1; fam.witnesses += 1
+                      hav = (d.havoc or [None])[0]
+                      terms = {'N': N, 'M': M_}
+                      for i, b in enumerate(sbytes): terms[f's{i}'] = b
+                      def cand(role, text, m):
+                          mv = model_values(m, terms) if m is not None else {}
+                          mv.update(fn=name, shape=shape, k=k, absent_count=absent_count)
+                          cd = Candidate(fam.name, role, f'({name} <{shape} of {k}> ...) {text}' + (f' at N={mv.get("N")}' + (f', M={mv.get("M")}' if '+M' in kind else '') + (f', string bytes {[mv.get(f"s{i}") for i in range(k)]}' if shape == 'string' else '') if m is not None else ''), mv, unmodelled=hav)
+                          fam.candidates.append(cd); allc.append(cd)
+                      if d.status == 'panic' or d.status not in ('returned',):
+                          ok_, m = ex.valid(d, z3.BoolVal(False))
+                          cand('panic:' + shape if d.status == 'panic' else f'path-{d.status}', f'{d.status}: {d.notes[-1] if d.notes else ""}', m); continue
+                      r = obj(d, d.ret); rd = cval(ex.discr(d, r).t)
+                      got = show(d, ex, d.heap[r.oid][('f', 'Some', 0)]) if rd == 1 else None
+                      # ---- reference
+                      wrong_type = (kind.startswith('coll') and shape == 'number') or (kind.startswith('arr') and shape != 'array') or (kind.startswith('str') and shape != 'string') \
+                          or (kind == 'sizeof' and shape == 'number') or (kind == 'index' and shape in ('number', 'string')) or (kind == 'range' and shape != 'number') \
+                          or (kind in ('put', 'keys', 'values') and shape != 'object') \
+                        or (kind == 'sizeof' and shape == 'number') or (kind == 'index' and shape in ('number', 'string')) or (kind == 'range' and shape != 'number') \
+                        or (kind in ('put', 'keys', 'values') and shape != 'object')
+                      if wrong_type or absent_count:
+                          if got is None: fam.discharged += 1
+                          else: cand('ill-typed-not-nothing', f'gives {got[0]} instead of nothing for an ill-typed / absent argument', ex.valid(d, z3.BoolVal(False))[1])
+                          continue
+                      if kind in ('sizeof', 'index', 'range', 'put', 'keys', 'values'):
+                          conj = None; why = None
+                          if kind == 'sizeof':
+                              if shape == 'string':
+                                  starts = char_starts(sbytes)
+                                  want = sum([z3.If(s_, z3.BitVecVal(1, 64), z3.BitVecVal(0, 64)) for s_ in starts]) if sbytes else z3.BitVecVal(0, 64)
+                              else: want = z3.BitVecVal(k, 64)
+                              if got is None or got[0] != 'num' or got[1] != 'Positive': why = f'returns {got}'
+                              else: conj = got[2] == want
+                          elif kind == 'index':
+                              if shape == 'array':
+                                  cs_ = [z3.Implies(N == i, z3.BoolVal(got == ('opaque', f'E{i}'))) for i in range(k)] + [z3.Implies(z3.UGE(N, k), z3.BoolVal(got is None))]
+                                  conj = z3.And(*cs_)
+                              else:
+                                  exp = ('opaque', 'V' + keyname[1:]) if keyname != 'KX' else None
+                                  if got != exp: why = f'key {keyname}: returns {got}'
+                                  else: conj = z3.BoolVal(True)
+                          elif kind == 'range':
+                              r_ = obj(d, d.ret); rv = obj(d, d.heap[r_.oid][('f', 'Some', 0)]) if rd == 1 else None
+                              if rv is None: why = 'returns nothing'
+                              else:
+                                  items = model(d, d.heap[rv.oid][('f', 'Array', 0)]) if ('f', 'Array', 0) in d.heap[rv.oid] else None
+                                  if items is None: why = 'not an array'
+                                  else:
+                                      descs = [show(d, ex, x) for x in items]
+                                      cs_ = [N == len(items)] + [z3.BoolVal(ds[0] == 'num' and ds[1] == 'Positive') for ds in descs] + [ds[2] == i for i, ds in enumerate(descs) if ds[0] == 'num']
+                                      conj = z3.And(*cs_)
+                          elif kind == 'put':
+                              base = [(f'K{i}', f'V{i}') for i in range(k)]
+                              exp = [(kk, 'NEWV' if kk == keyname else vv) for kk, vv in base] + ([('KX', 'NEWV')] if keyname == 'KX' else [])
+                              if got is None or got[0] != 'object' or got[1] != exp: why = f'put {keyname}: returns {got}, expected {exp}'
+                              else: conj = z3.BoolVal(True)
+                          elif kind == 'keys':
+                              if got is None or got[0] != 'array': why = f'returns {got}'
+                              else:
+                                  r_ = obj(d, d.ret); rv = obj(d, d.heap[r_.oid][('f', 'Some', 0)])
+                                  names = []
+                                  for x in model(d, d.heap[rv.oid][('f', 'Array', 0)]):
+                                      x = obj(d, x); names.append(origin(d, d.heap[x.oid].get(('f', 'String', 0))) if ('f', 'String', 0) in d.heap[x.oid] else origin(d, x))
+                                  if names != [f'K{i}' for i in range(k)]: why = f'keys are {names}'
+                                  else: conj = z3.BoolVal(True)
+                          elif kind == 'values':
+                              if got is None or got[0] != 'array' or got[1] != [f'V{i}' for i in range(k)]: why = f'returns {got}'
+                              else: conj = z3.BoolVal(True)
+                          if why is None:
+                              ok_, m = ex.valid(d, conj)
+                              if ok_: fam.discharged += 1
+                              else: cand('wrong-result:' + shape, f'returns {got}', m)
+                          else:
+                              cand('wrong-result:' + shape, why, ex.valid(d, z3.BoolVal(False))[1])
+                          continue
+                      if shape == 'string':
+                          # elements are code points: expected byte length is the offset of the n-th char start
+                          bs = sbytes; starts = char_starts(bs)
+                          nchars = sum([z3.If(s_, z3.BitVecVal(1, 64), z3.BitVecVal(0, 64)) for s_ in starts]) if bs else z3.BitVecVal(0, 64)
+                          def offset_of(nth):      # byte offset where the nth (0-based) char starts; len if beyond
+                              off = z3.BitVecVal(len(bs), 64); cnt = z3.BitVecVal(0, 64)
+                              res = z3.BitVecVal(len(bs), 64)
+                              seen = z3.BitVecVal(0, 64); found = z3.BoolVal(False)
+                              for i, s_ in enumerate(starts):
+                                  hit = z3.And(s_, seen == nth, z3.Not(found))
+                                  res = z3.If(hit, z3.BitVecVal(i, 64), res); found = z3.Or(found, hit)
+                                  seen = seen + z3.If(s_, z3.BitVecVal(1, 64), z3.BitVecVal(0, 64))
+                              return res
+                          if name in ('take', 'head'): lo, hi = z3.BitVecVal(0, 64), offset_of(N)
+                          elif name == 'tail': lo, hi = z3.If(z3.UGT(N, nchars), z3.BitVecVal(0, 64), offset_of(N)), z3.BitVecVal(len(bs), 64)
+                          elif name == 'take_last': lo, hi = z3.If(z3.UGE(N, nchars), z3.BitVecVal(0, 64), offset_of(nchars - N)), z3.BitVecVal(len(bs), 64)
+                          elif name == 'sub': lo, hi = offset_of(N), z3.If(z3.UGE(M_, nchars - z3.If(z3.UGT(N, nchars), nchars, N)), z3.BitVecVal(len(bs), 64), offset_of(N + M_))
+                          if got is None or got[0] != 'string':
+                              cand('string-not-string', f'returns {got} for a string', ex.valid(d, z3.BoolVal(False))[1]); continue
+                          gb = got[1]
+                          # result must be the byte slice [lo, hi): same length and bytes
+                          conj = [hi - lo == len(gb)]
+                          for j, g in enumerate(gb):
+                              alts = [z3.And(lo == i, g == bs[i + j]) for i in range(len(bs)) if i + j < len(bs)]
+                              conj.append(z3.Or(*alts) if alts else z3.BoolVal(False))
+                          ok_, m = ex.valid(d, z3.And(*conj))
+                          if ok_: fam.discharged += 1
+                          else: cand('string-wrong-slice', f'returns {len(gb)} bytes; expected the code points [{m.eval(lo, True)}..{m.eval(hi, True)}) (byte offsets)', m)
+                          continue
+                      elems = [f'E{i}' for i in range(k)] if shape == 'array' else [(f'K{i}', f'V{i}') for i in range(k)]
+                      cases = ref(k, elems)
+                      conj = []
+                      for cnd, exp in cases:
+                          if kind.endswith('->elem'):
+                              good = (got is None and exp is None) or (got is not None and exp is not None and got == ('opaque', exp))
+                          else:
+                              good = got is not None and got[0] == shape and got[1] == exp
+                          conj.append(z3.Implies(cnd, z3.BoolVal(bool(good))))
+                      ok_, m = ex.valid(d, z3.And(*conj))
+                      if ok_:
+                          fam.discharged += 1
+                          if k >= 2: fam.add_sample({'call': f'({name} <{shape} of {k}> N)', 'path_result': str(got)[:120], 'verdict': 'equals the reference for every N on this path'})
+                      else:
+                          cand('wrong-result:' + shape, f'returns {got}', m)
+                  run.absorb(ex)
         seen = set(); keep = []
         for cd in fam.candidates:
             if cd.role in seen: continue
@@ -457,6 +569,23 @@ def replay_kernels(ctx, cands):
         args = [a0]
         n = mv.get('N', 0); m_ = mv.get('M', 0)
         kind = KERNELS[name][1]
+        if kind in ('sizeof', 'index', 'range', 'put', 'keys', 'values'):
+            # small concrete demonstrations per kernel (the model's N where it matters)
+            DEMOS = {'size': [('(size "h\u00e9llo")', 5), ('(size [1,2,3])', 3), ('(size {"a":1})', 1), ('(size "")', 0)],
+                     'get': [(f'(get [10,11,12] {n})', [10, 11, 12][n] if n < 3 else 'nothing'), ('(get {"a":1,"b":2} "b")', 2), ('(get {"a":1} "x")', 'nothing'), ('(get [10,11] 0)', 10)],
+                     'range': [(f'(range {min(n, 6)})', list(range(min(n, 6)))), ('(range 0)', []), ('(range 3)', [0, 1, 2])],
+                     'put': [('(put {"a":1,"b":2} "a" 9)', {'a': 9, 'b': 2}), ('(put {"a":1} "z" 9)', {'a': 1, 'z': 9}), ('(put {} "z" 9)', {'z': 9})],
+                     'keys': [('(keys {"b":1,"a":2,"c":3})', ['b', 'a', 'c']), ('(keys {})', [])],
+                     'values': [('(values {"b":1,"a":2,"c":3})', [1, 2, 3]), ('(values {})', [])]}
+            c.status = 'unit'
+            for expr, exp in DEMOS[name]:
+                r = run_jawk(ctx, ['--select', expr + '=r', '--style', 'consise', '--utf8-strings'], b'null')
+                out = shw(r['stdout']).strip()
+                try: got = json.loads(out).get('r', 'nothing') if out else 'no-output'
+                except Exception: got = 'unparsable:' + out
+                c.replay = {'argv': ['--select', expr + '=r'], 'expected': exp, 'actual': got}
+                if got != exp or (isinstance(exp, dict) and list(got.keys()) != list(exp.keys())): c.status = 'reproduced'; break
+            continue
         if '+N' in kind and not mv.get('absent_count'): args.append(str(n))
         if '+M' in kind: args.append(str(m_))
         if '+X' in kind: args.append('"X"')
